@@ -107,18 +107,25 @@ func readLoopIdle() bool {
 	return false
 }
 
-// libraryQuiet: every goroutine that is inside package udp or packetio is parked (read loop in the kernel, acceptor in
-// Accept, connection readers in Buffer.Read): nothing is in flight inside the listener.
-func libraryQuiet() bool {
+// libraryQuiet: nothing is in flight between the socket and the connection readers: the socket queue is empty, every
+// goroutine inside package udp or packetio is parked (read loop in the kernel), the acceptor is parked in Accept (so
+// every connection it has taken has been handed to a handler: liveHandlers is up to date), and every live handler is
+// parked inside Conn.Read (none is still on its way to its first Read or busy with a datagram).
+func libraryQuiet(liveHandlers int) bool {
 	if n, found := sockq.Pending(listenerPort); !found || n != 0 {
 		return false
 	}
-	for _, g := range gstate.Snapshot() {
+	snap := gstate.Snapshot()
+	inRead := 0
+	for _, g := range snap {
 		if (g.Has("pion/transport/v3/udp.") || g.Has("pion/transport/v3/packetio.")) && !gstate.Blocked(g.State) {
 			return false
 		}
+		if g.Has("udp.(*Conn).Read") {
+			inRead++
+		}
 	}
-	return true
+	return len(gstate.ParkedIn(snap, "udp.(*listener).Accept")) == 1 && inRead == liveHandlers
 }
 
 func runCase(c *dcase, r *res.Result) (string, string) {
@@ -136,6 +143,10 @@ func runCase(c *dcase, r *res.Result) (string, string) {
 	}
 	laddr := l.Addr().(*net.UDPAddr)
 	listenerPort = laddr.Port
+	// datagrams the kernel drops at a full socket buffer never reach the library: make the buffer large (the pacing
+	// keeps at most 48 KiB of payload outstanding, but the kernel accounts a multiple of that for small datagrams) and
+	// read the socket's own drop counter at the end
+	r.Max("listener_rcvbuf_bytes", int64(sockq.SetRcvBuf(listenerPort, 8<<20)))
 	rng := rand.New(rand.NewSource(c.Seed))
 	var vmu sync.Mutex
 	vkey, vdesc := "", ""
@@ -188,12 +199,13 @@ func runCase(c *dcase, r *res.Result) (string, string) {
 	const budget = 48 * 1024
 	complete := c.Paced && !c.Reconn && c.Backlog >= c.Clients // every admissible datagram must come out
 	var stop int32
-	var nConns, nReconn int64
+	var nConns, nReconn, handlersSpawned, handlersDone int64
 	firstReads := map[string]uint32{}
 	var fmu sync.Mutex
 	// connection reader: isolation, order, integrity, gap-freeness (paced)
 	handle := func(conn net.Conn, closeAfter int) {
 		defer readers.Done()
+		defer atomic.AddInt64(&handlersDone, 1)
 		ra := conn.RemoteAddr().String()
 		cl := byAddr[ra]
 		if cl == nil {
@@ -294,6 +306,7 @@ func runCase(c *dcase, r *res.Result) (string, string) {
 				ca = 1 + arng.Intn(5)
 			}
 			readers.Add(1)
+			atomic.AddInt64(&handlersSpawned, 1)
 			go handle(conn, ca)
 		}
 	}()
@@ -363,7 +376,8 @@ func runCase(c *dcase, r *res.Result) (string, string) {
 				if got {
 					break
 				}
-				if libraryQuiet() && libraryQuiet() {
+				live := func() int { return int(atomic.LoadInt64(&handlersSpawned) - atomic.LoadInt64(&handlersDone)) }
+				if libraryQuiet(live()) && libraryQuiet(live()) {
 					fmu.Lock()
 					_, got = firstReads[cl.addr]
 					fmu.Unlock()
@@ -463,6 +477,15 @@ func runCase(c *dcase, r *res.Result) (string, string) {
 			}
 		}
 		fmu.Unlock()
+	}
+	if k != "" {
+		if dr, ok := sockq.Drops(listenerPort); !ok || dr > 0 {
+			r.Count("cases_with_kernel_drops", 1)
+			switch k {
+			case "demux:gap", "demux:lost", "demux:first-datagram", "demux:no-connection", "demux:no-connection-after-overflow":
+				k, d = "", fmt.Sprintf("inconclusive: the kernel dropped %d datagram(s) at the listener socket (ok=%v), a missing datagram proves nothing: %s", dr, ok, k)
+			}
+		}
 	}
 	atomic.StoreInt32(&stop, 1)
 	l.Close()
